@@ -340,6 +340,11 @@ func ops(m *model, k int) (out []struct {
 		}
 		add(step{Op: "drop_table", SQL: []string{"DROP TABLE `u`"}, ViaDiff: true, Expect: []expect{{"DS102", "u", []string{"DROP TABLE `u`"}}}}, n)
 	}
+	// table u dropped and a table of the same name created again in the same file: its rows are gone.
+	if u := m.table("u"); u != nil {
+		add(step{Op: "drop_recreate_table", SQL: []string{"DROP TABLE `u`", createSQL(u, "u")},
+			Expect: []expect{{"DS102", "u", []string{"DROP TABLE `u`"}}}}, m.clone())
+	}
 	// temporary table within one file
 	add(step{Op: "temp_table", SQL: []string{fmt.Sprintf("CREATE TABLE `tmpt%d` (`id` integer)", k), fmt.Sprintf("DROP TABLE `tmpt%d`", k)}}, m.clone())
 	return
@@ -537,7 +542,7 @@ func Run(r *report.Run) {
 	if r.Tier == "thorough" {
 		depth = 3
 	}
-	r.Rule = fmt.Sprintf("BFS to depth %d over schema evolutions of a two-table SQLite schema (add table, add nullable column, add index, drop column by ALTER, drop column by table rebuild, drop column (by ALTER / by rebuild) and add it back in the same file, drop table, change type by rebuild, add check by rebuild, drop VIRTUAL column, temporary table / temporary column inside one file, a rebuild directly followed by DROP TABLE, two rebuilds in one file); every history becomes a migration directory in which the last file is written by hand and, where the evolution can be expressed as a desired schema, also by the real `atlas migrate diff` (earlier files hand-written); x --latest N for every N<=depth; the real `atlas migrate lint` runs against a real SQLite dev database; states de-duplicated by the canonical schema model for expansion; non-trivial = every directory; distinct = (history, producer, N)", depth)
+	r.Rule = fmt.Sprintf("BFS to depth %d over schema evolutions of a two-table SQLite schema (add table, add nullable column, add index, drop column by ALTER, drop column by table rebuild, drop column (by ALTER / by rebuild) and add it back in the same file, drop table, drop table and create it again in the same file, change type by rebuild, add check by rebuild, drop VIRTUAL column, temporary table / temporary column inside one file, a rebuild directly followed by DROP TABLE, two rebuilds in one file); every history becomes a migration directory in which the last file is written by hand and, where the evolution can be expressed as a desired schema, also by the real `atlas migrate diff` (earlier files hand-written); x --latest N for every N<=depth; the real `atlas migrate lint` runs against a real SQLite dev database; states de-duplicated by the canonical schema model for expansion; non-trivial = every directory; distinct = (history, producer, N)", depth)
 	r.Assumptions = []string{
 		"a file is destructive iff it removes a table or a non-virtual column that existed before the file (reference model of the evolution)",
 		"for a table rebuild the diagnostic position is the first statement of the CREATE/INSERT/DROP/RENAME group, as sqlitecheck documents",
